@@ -13,6 +13,12 @@ Decided structurally:
                 selected-output heading flag ...) - no definition store is touched per call
   C04.counter   engine code does not branch on scalars that restart in every call (simulation counter, first_read_input)
                 outside a frozen list of functions (printing them or returning them to BASIC is fine)
+  C04.retidy    the names of a SELECTED_OUTPUT block are resolved to species / phases / master species by tidy_punch only; the
+                engine re-runs it when a simulation contains a keyword whose reader can define such an entity.  Every keyword
+                whose reader (the case of Phreeqc::read_input) may reach s_store / phase_store / master_alloc must be among the
+                keywords under which tidy_model calls tidy_punch (flags such as new_model expanded to their keycount
+                disjunctions); otherwise a definition delivered in the same call as the block stays unresolved while the same
+                text delivered in a later call is resolved (the wrapper forces a re-tidy at the start of every call)
   C04.forced    the only per-call forced flag, SelectedOutput::new_def, may steer heading output only: engine code that is
                 control-dependent on it writes no SelectedOutput data (name -> pointer resolution etc.) and no engine member
                 other than the print/punch switches
@@ -237,6 +243,7 @@ def run(P, R, tier):
     # ------------------------------------------------------------------ C04.forced
     forced_rule(P, R, tab)
     counter_rule(P, R, tab)
+    retidy_rule(P, R)
 
 
 def forced_rule(P, R, tab):
@@ -372,3 +379,107 @@ def counter_rule(P, R, tab):
                     R.anchor_missing("C04.counter", "allowed function %s no longer exists" % fn_)
         if nread == 0:
             R.ok("C04.counter", name, "no engine branch reads it")
+
+
+def keycount_terms(n, flags=None):
+    """keywords K for which `keycount[K]` occurs in n (flags expanded)"""
+    out = set()
+    for x in T.walk(n):
+        if x[0] == "Call" and T.callee_name(x) == "operator[]" and len(x[4]) == 2:
+            m, k = T.strip_casts(x[4][0]), T.strip_casts(x[4][1])
+            if m[0] == "Member" and m[2] == "Phreeqc::keycount" and k[0] == "Ref" and k[2] == "enum":
+                out.add(k[3].split("::")[-1])
+        if flags and x[0] == "Member" and x[2] in flags:
+            out |= flags[x[2]]
+    return out
+
+
+def retidy_rule(P, R):
+    R.rule("C04.retidy", "every keyword whose reader can define a species, phase or master species makes tidy_model re-resolve the selected-output names (tidy_punch)", minimum=5)
+    cg = callgraph(P)
+    tm = P.one("Phreeqc::tidy_model")
+    tp = P.one("Phreeqc::tidy_punch")
+    ri = P.one("Phreeqc::read_input")
+    where = dict(file=tm["file"], function=tm["q"])
+    # slot 1: the look-ups tidy_punch resolves names with, and the store functions that feed them
+    pairs = {"s_search": "Phreeqc::s_store", "phase_bsearch": "Phreeqc::phase_store", "master_bsearch": "Phreeqc::master_alloc"}
+    used = set(T.callee_name(c) for c in T.calls(tp["body"]))
+    stores = set()
+    for lk, st in pairs.items():
+        if lk not in used:
+            R.anchor_missing("C04.retidy", "tidy_punch no longer resolves names with %s" % lk)
+            return
+        ks = [k for k, g in P.functions.items() if g["q"] == st]
+        if not ks:
+            R.anchor_missing("C04.retidy", "%s not found" % st)
+            return
+        stores.update(ks)
+    reach = cg.reach_to(stores)
+    # slot 2: keyword -> reader from the dispatch switch of read_input
+    defining = {}
+    for sw in T.walk(ri["body"]):
+        if sw[0] != "Switch":
+            continue
+        body = sw[3]
+        cur = []
+        for st in (body[2] if body[0] == "Compound" else [body]):
+            node = st
+            while T.is_node(node) and node[0] in ("Case", "Default"):
+                if node[0] == "Case":
+                    lab = T.strip_casts(node[2])
+                    if lab[0] == "Ref" and lab[2] == "enum":
+                        cur.append(lab[3].split("::")[-1])
+                    node = node[4]
+                else:
+                    node = node[2]
+            if T.is_node(node):
+                for c in T.calls(node):
+                    if isinstance(c[2], dict):
+                        hit = [k for k in cg.resolve(c[2], ri) if k in reach]
+                        if hit:
+                            for kw in cur:
+                                defining.setdefault(kw, P.functions[hit[0]]["q"])
+                if node[0] in ("Break", "Goto", "Return"):
+                    cur = []
+    if len(defining) < 5:
+        R.anchor_missing("C04.retidy", "fewer than 5 defining keywords derived from read_input (%s)" % sorted(defining))
+        return
+    # slot 3: flags of tidy_model and the guard of tidy_punch
+    flags = {}
+    for x in T.walk(tm["body"]):
+        if x[0] == "If" and not T.is_node(x[4]):
+            ws = [w for w in T.walk(x[3]) if w[0] == "Bin" and w[2] == "=" and T.strip_casts(w[3])[0] == "Member" and T.lit_value(w[4]) == 1]
+            kt = keycount_terms(x[2])
+            if kt and len(ws) == 1:
+                flags.setdefault(T.strip_casts(ws[0][3])[2], set()).update(kt)
+    guard = None
+
+    def rec(n, conds):
+        nonlocal guard
+        if not T.is_node(n):
+            return
+        if n[0] == "If":
+            rec(n[3], conds + [n[2]])
+            rec(n[4], conds)
+            return
+        if n[0] == "Call" and T.callee_q(n) == "Phreeqc::tidy_punch":
+            guard = (n, conds)
+        for c in T.children(n):
+            rec(c, conds)
+    rec(tm["body"], [])
+    if guard is None:
+        R.anchor_missing("C04.retidy", "tidy_model no longer calls tidy_punch")
+        return
+    call, conds = guard
+    covered = None
+    for cd in conds:
+        kt = keycount_terms(cd, flags)
+        if kt:
+            covered = kt if covered is None else covered & kt
+    for kw, reader in sorted(defining.items()):
+        if covered is None or kw in covered:
+            R.ok("C04.retidy", kw, "reader %s can define an entity; tidy_punch re-run under this keyword" % reader)
+        else:
+            R.violation("C04.retidy", kw, "%s can define a species / phase / master species (via %s) but tidy_model does not call tidy_punch when only this keyword is present: a "
+                        "SELECTED_OUTPUT name defined later in the same call stays unresolved, while in a separate call the wrapper's forced re-tidy resolves it"
+                        % (kw, reader), line=call[1], **where)
